@@ -412,6 +412,9 @@ pub fn json_eq(a: &Value, b: &Value) -> bool {
 pub struct Gen<'a> {
     pub root: &'a Value,
     pub st: Style,
+    /// only what the schema names: no properties beyond `properties`, no
+    /// instance that deliberately satisfies two branches at once
+    pub conservative: bool,
 }
 
 const WORDS: [&str; 8] = ["", "a", "hello", "ünï", "2020-01-01T00:00:00Z", "00000000-0000-0000-0000-000000000000", "127.0.0.1", "a much longer string value than the others"];
@@ -540,7 +543,7 @@ impl<'a> Gen<'a> {
                     let a = self.instance(&subs[k], valid, depth + 1);
                     // sometimes an instance that satisfies two branches at once
                     // (this is what tells anyOf from oneOf)
-                    if subs.len() >= 2 && self.st.below(3) == 0 {
+                    if !self.conservative && subs.len() >= 2 && self.st.below(3) == 0 {
                         let j = self.st.below(subs.len() as u64) as usize;
                         let b = self.instance(&subs[j], valid, depth + 1);
                         if let (Value::Object(mut x), Value::Object(y)) = (a.clone(), b) {
@@ -667,7 +670,7 @@ impl<'a> Gen<'a> {
                         }
                     }
                     _ => {
-                        if self.st.below(4) == 0 {
+                        if !self.conservative && self.st.below(4) == 0 {
                             m.insert("zz_unknown".into(), json!("x"));
                         }
                     }
